@@ -5,7 +5,7 @@ from .common import *   # noqa: F401,F403
 from . import instr_gen as ig
 from . import C06 as c06
 
-LEAF = ['Leaf_chart', 'Leaf_fromfile', 'Leaf_dispatch', 'Leaf_tracks']      # translated functions this property's model relies on (Tie/<name>.v)
+LEAF = ['Leaf_chart', 'Leaf_fromfile', 'Leaf_meta', 'Leaf_dispatch', 'Leaf_tracks']      # translated functions this property's model relies on (Tie/<name>.v)
 RULE = ("charts with a random subset (0-6) of the 40 tracks; selections: None, [], single pairs, subsets, supersets, pairs absent from the file, pairs differing in both instrument and difficulty "
         "(cross products), duplicated pairs, a tuple instead of a list; optionally ONE instrument section's body replaced by garbage, by another track's body, or by a body that cannot be built "
         "(forced first note, note governed by a zero tempo); optionally extra sections whose names merely BEGIN with a track's name ([ExpertSingle_old], [HardDrums (disabled)], ...) "
